@@ -40,6 +40,9 @@ type xmpReader struct {
 	eof bool // the underlying reader is exhausted: look-aheads are served from what is buffered
 }
 
+// errNoAttribute: the start tag ended (after white space) where an attribute could have begun
+var errNoAttribute = errors.New("no attribute")
+
 func newXMPReader(r io.Reader) xmpReader {
 	br, ok := r.(*bufio.Reader)
 	if !ok || br.Size() < xmpBufferLength {
@@ -134,6 +137,19 @@ func (br *xmpReader) readAttribute(tag *Tag) (attr Attribute, err error) {
 		}
 	}
 
+	// White space in front of the end of the start tag: no further attribute
+	if buf[0] == '>' {
+		br.a = false
+		_, err = br.Discard(1)
+		return attr, errNoAttribute
+	}
+	if len(buf) > 1 && buf[0] == '/' && buf[1] == '>' {
+		br.a = false
+		tag.t = soloTag
+		_, err = br.Discard(2)
+		return attr, errNoAttribute
+	}
+
 	var d int
 	if attr.self, d, err = parseAttrName(buf); err != nil {
 		err = errors.Wrap(ErrNegativeRead, "Attr (name)")
@@ -153,7 +169,6 @@ func (br *xmpReader) readAttribute(tag *Tag) (attr Attribute, err error) {
 // readAttrValue reada an Attributes value from the Tag.
 // Needs improvement for performance
 func (br *xmpReader) readAttrValue(tag *Tag) (buf []byte, err error) {
-	d, i := 0, 2
 	s := maxTagValueSize / 2
 	for {
 		if buf, err = br.Peek(s); err != nil {
@@ -161,8 +176,21 @@ func (br *xmpReader) readAttrValue(tag *Tag) (buf []byte, err error) {
 			return
 		}
 
-		if buf[0] == '=' && (buf[1] == '"' || buf[1] == '\'') {
-			delim := buf[1]
+		// '=' and the opening quote, each possibly preceded by white space
+		q, ok := 0, false
+		for q < len(buf) && isSpace(buf[q]) {
+			q++
+		}
+		if q < len(buf) && buf[q] == '=' {
+			q++
+			for q < len(buf) && isSpace(buf[q]) {
+				q++
+			}
+			ok = q < len(buf) && (buf[q] == '"' || buf[q] == '\'')
+		}
+		if ok {
+			delim := buf[q]
+			i := q + 1
 			if b := bytes.IndexByte(buf[i:], delim); b >= 0 {
 				if i+b+2 >= len(buf) && len(buf) >= s {
 					// the closing quote ends the window: the one or two bytes that
@@ -171,11 +199,11 @@ func (br *xmpReader) readAttrValue(tag *Tag) (buf []byte, err error) {
 					continue
 				}
 				i += b
-				d = i + 1
-				if buf[i+1] == '>' {
+				d := i + 1
+				if i+1 < len(buf) && buf[i+1] == '>' {
 					d++
 					br.a = false
-				} else if buf[i+1] == '/' && buf[i+2] == '>' {
+				} else if i+2 < len(buf) && buf[i+1] == '/' && buf[i+2] == '>' {
 					d += 2
 					tag.t = soloTag
 					br.a = false
@@ -183,7 +211,7 @@ func (br *xmpReader) readAttrValue(tag *Tag) (buf []byte, err error) {
 				if _, err = br.Discard(d); err != nil {
 					err = errors.Wrap(err, "Attr Value (discard)")
 				}
-				return buf[2:i], err
+				return buf[q+1 : i], err
 			}
 		}
 		s += maxTagValueSize
@@ -326,6 +354,10 @@ func (br *xmpReader) readTag(xmp *XMP, parent Tag) (tag Tag, err error) {
 		var attr Attribute
 		for br.hasAttribute() {
 			if attr, err = br.readAttribute(&tag); err != nil {
+				if err == errNoAttribute {
+					err = nil
+					break
+				}
 				return
 			}
 			// Parse Attribute Value
@@ -380,6 +412,10 @@ func (br *xmpReader) readSeqTags(xmp *XMP, parent Tag) (err error) {
 			var attr Attribute
 			for br.hasAttribute() {
 				if attr, err = br.readAttribute(&tag); err != nil {
+					if err == errNoAttribute {
+						err = nil
+						break
+					}
 					return
 				}
 
